@@ -15,6 +15,7 @@
 package acl
 
 import (
+	"github.com/echovault/sugardb/verifhook"
 	"slices"
 	"strings"
 )
@@ -120,6 +121,7 @@ func RemoveDuplicateEntries(entries []string, allAlias string) (res []string) {
 
 func (user *User) UpdateUser(cmd []string) error {
 	for _, str := range cmd {
+		verifhook.Yield("acl.update.token")
 		// Parse enabled
 		if strings.EqualFold(str, "on") {
 			user.Enabled = true
